@@ -86,7 +86,9 @@ TOL_G = CONV_TOL            # the diffuse-layer composition g is iterated to |dg
 # sorbing elements entered in SOLUTION (label -> formal charge used only for choosing the charge-balancing ion)
 CATIONS = ["Ca", "Mg", "Sr", "Ba", "Zn", "Cd", "Cu", "Pb", "Ni", "Co", "Be"]
 ANIONS = ["S(6)", "P", "F", "B", "Si"]
-BACKGROUND = [("Na", "Cl"), ("K", "Cl"), ("Na", "N(5)"), ("Na", "Cl")]
+# (no nitrate background: in batch-reaction rows N(5) is reduced towards N2/NH4+ at the redox equilibrium of the un-poised system, and
+#  with an explicit Borkovec-Westall layer single cases then took 1-5 minutes of engine time)
+BACKGROUND = [("Na", "Cl"), ("K", "Cl"), ("Na", "Cl")]
 USER_SURFACES = ["Sfa", "Sfb", "Goe", "Mno"]
 REACTANTS = ["NaOH", "HCl", "NaCl", "ZnCl2", "CaCl2", "Na2SO4", "CdCl2", "NaH2PO4", "KOH", "H2SO4"]
 
@@ -1086,8 +1088,8 @@ def aqueous_ions(M, v):
 
 def run(ctx):
     n = BUDGET[ctx.tier]
-    ctx.hyp(case_st(), lambda c: check_case(c, ctx), n - n // 3, "surf")
-    ctx.hyp(case_st(series=True), lambda c: check_case(c, ctx), n // 3, "series")
+    ctx.hyp(case_st(), lambda c: check_case(c, ctx), n - n // 4, "surf")
+    ctx.hyp(case_st(series=True), lambda c: check_case(c, ctx), n // 4, "series")
 
 
 def debug_discards(n=200, seed_=5):
